@@ -423,7 +423,7 @@ def rule_cornish_fisher(repo: Repo) -> List[Ob]:
         rets = [r.value for r in walk_no_nested(a.node) if isinstance(r, ast.Return) and r.value is not None]
         if len(rets) == 1:
             sa = a.params()[0]
-            good = _equiv(rets[0], _parse(f"{sa}.cumulants[{ka} + 2] / (factorial({ka} + 2) * sqrt({sa}.cumulants[2]) ** ({ka} + 2))"))
+            good = _equiv_in(Defs(a.node, sa), {ka, sa}, rets[0], _parse(f"{sa}.cumulants[{ka} + 2] / (factorial({ka} + 2) * sqrt({sa}.cumulants[2]) ** ({ka} + 2))"))
             if good is None:
                 obs.append(inconclusive(R, keya, CF, a.node.lineno, a.qualname, "a_k not readable"))
             else:
